@@ -571,7 +571,8 @@ class _Run:
             if isinstance(b.msens, np.ndarray):
                 b.msens = np.zeros(b.msens.shape, dtype=b.msens.dtype)
                 after = self.pm("base.sensitivity", lambda: sig.sensitivity)
-                if after is not _FAIL and after is not before:
+                # (only an ndarray is a buffer that can be kept; a 0-d sensitivity may live as an immutable numpy scalar)
+                if after is not _FAIL and after is not before and isinstance(before, np.ndarray):
                     self.bad(f"{self.opname}:buffer",
                              "allocation kept, but the sensitivity is not the same buffer as before the reset")
             else:
